@@ -31,6 +31,9 @@ type Native struct {
 	Bin       string
 	Err       string
 	BuildTime time.Duration
+	RaceBin   string
+	RaceErr   string
+	rawOut    bool
 }
 
 const dispatchTmpl = `package PKGNAME
@@ -281,7 +284,11 @@ func (n *Native) Run(vectors []map[string]interface{}) ([]nativeOut, string) {
 	cmd := exec.Command(n.Bin, "-test.run", "^TestVPReplay$", "-test.timeout", "20m")
 	cmd.Dir = filepath.Join(*flagRepo, n.PkgDir)
 	cmd.Env = append(os.Environ(), "VP_VECTORS="+f)
+	cmd.Env = append(cmd.Env, "GORACE=halt_on_error=0")
 	out, _ := cmd.CombinedOutput()
+	if n.rawOut {
+		return make([]nativeOut, len(vectors)), string(out)
+	}
 	res := make([]nativeOut, len(vectors))
 	cur := -1
 	for _, l := range strings.Split(string(out), "\n") {
@@ -348,6 +355,7 @@ func vecForNative(h *Harness, vec map[string]string, tier string) map[string]int
 		v["param!"+k] = strconv.Itoa(x)
 	}
 	v["vp!tier"] = tier
+	v["vp!seq"] = "1" // logical threads run one after the other except under the race detector
 	return map[string]interface{}{"Harness": h.Name, "Vec": v}
 }
 
@@ -416,6 +424,17 @@ func validateNatively(r *HarnessResult, n *Native, tier, replayDir string, probl
 			}
 		case "deadlock":
 			v.Reproduced = o.End == "VP-DEADLOCK"
+		case "race":
+			n.BuildRace()
+			if n.RaceBin == "" {
+				v.NativeOut = n.RaceErr
+			} else {
+				rv := vecForNative(r.H, v.Vector, tier)
+				rv["Vec"].(map[string]string)["vp!seq"] = "0"
+				raw := n.RunRace(rv, 5)
+				v.Reproduced = strings.Contains(raw, "DATA RACE") || strings.Contains(raw, "concurrent map")
+				v.NativeOut = firstLines(raceExcerpt(raw), 14)
+			}
 		}
 		rp := filepath.Join(replayDir, fmt.Sprintf("%s-%d.json", r.H.Name, i))
 		data, _ := json.MarshalIndent(map[string]interface{}{"harness": r.H.Name, "label": v.Label, "kind": v.Kind, "msg": v.Msg,
@@ -579,3 +598,18 @@ func replayFile(prop, path string, hs []*Harness) int {
 }
 
 var _ = token.NoPos
+
+func raceExcerpt(raw string) string {
+	i := strings.Index(raw, "WARNING: DATA RACE")
+	if i < 0 {
+		i = strings.Index(raw, "concurrent map")
+	}
+	if i < 0 {
+		return tail(raw, 600)
+	}
+	e := i + 1500
+	if e > len(raw) {
+		e = len(raw)
+	}
+	return raw[i:e]
+}
